@@ -279,6 +279,46 @@ func genC11(rng *hx.Rng, tier string, w *hx.Writer) error {
 				encA := PtBytes(Pt(g, ka, BnQ))
 				encB := PtBytes(Pt(g, kb, BnQ))
 				tag := []string{"decoded", "computed", "sum", "negated", "null"}[variant]
+				// an affine receiver (decoded, or the generator) used as the destination of an in-place sum,
+				// then encoded, cloned and decoded again
+				if variant == 0 {
+					kc := new(big.Int).Add(rng.BigBelow(new(big.Int).Sub(BnQ, big.NewInt(2))), big.NewInt(1))
+					wantSum := PtBytes(Pt(g, new(big.Int).Mod(new(big.Int).Add(ka, kc), BnQ), BnQ))
+					res := hx.Catch(func() string {
+						p := g.Point()
+						if (it+grp)%2 == 0 {
+							if err := p.UnmarshalBinary(encA); err != nil {
+								return hx.E
+							}
+						} else {
+							p = g.Point().Base()
+							wantSum = PtBytes(Pt(g, new(big.Int).Mod(new(big.Int).Add(big.NewInt(1), kc), BnQ), BnQ))
+						}
+						p.Add(p, g.Point().Mul(Sc(g, kc, BnQ), nil))
+						enc := PtBytes(p)
+						if !bytes.Equal(enc, wantSum) {
+							return "z1"
+						}
+						q2 := g.Point()
+						if err := q2.UnmarshalBinary(append([]byte{}, enc...)); err != nil || !q2.Equal(p) {
+							return "z2"
+						}
+						if !p.Clone().Equal(p) {
+							return "z3"
+						}
+						d := g.Point().Set(p)
+						d.Add(d, d)
+						if !bytes.Equal(PtBytes(d), PtBytes(g.Point().Add(q2, q2))) {
+							return "z4"
+						}
+						return "z0"
+					})
+					o := "ok"
+					if res != "z0" {
+						o = hx.Fail("roundtrip-broken", "an affine receiver used as the destination of an in-place sum: its encoding is not that of the sum / does not decode / differs from its clone ("+res+")")
+					}
+					w.Put(hx.Case{Entry: "-", Op: 0, Args: hx.L(hx.Zi(grp), hx.Z(ka), hx.Z(kc)), Impl: res, Oracle: o, Tags: []string{"in-place-sum-then-encode", "nt"}})
+				}
 				impl := hx.Catch(func() string {
 					var p kyber.Point
 					switch variant {
